@@ -18,10 +18,10 @@ from . import alpha
 INF = alpha.INF
 
 FACTORS = [
-    ("n", [1, 2]),
-    ("box", ["free", "wide", "odd", "lo", "narrow", "fixwide", "ulpwide"]),
+    ("n", [1, 2, 3]),
+    ("box", ["free", "wide", "odd", "lo", "narrow", "fixwide", "ulpwide", "big"]),
     ("x0", ["in", "on", "out"]),
-    ("obj", ["quad", "quad_far", "abs", "lin", "noisy", "none", "quad_nan", "const"]),
+    ("obj", ["quad", "quad_far", "abs", "lin", "noisy", "none", "quad_nan", "const", "cubic", "quad_nan_out"]),
     ("cons", ["none", "lin_le", "lin_eq", "lin_mixed", "ball_le", "ball_eq", "ball_two", "nl_vec", "cubic_le",
               "lin+nl", "lin+cubic", "two_nl", "dict_ineq", "dict_eq_args", "contra_nl"]),
     ("scale", [False, True]),
@@ -34,8 +34,10 @@ FACTORS = [
     ("callback", ["none", "xk", "ir", "stop3", "stop9", "nanwrite"]),
     ("disp", [False, True]),
     ("debug", [False, True]),
-    ("radius", ["default", "half", "tiny0", "big"]),
-    ("constant", ["default", "slowshrink", "ratios", "notcg"]),
+    ("radius", ["default", "half", "tiny0", "big", "huge"]),
+    ("constant", ["default", "slowshrink", "ratios", "notcg", "shiftalways", "penalty", "shortstep", "bo"]),
+    ("fault", ["none", "obj_nan0", "obj_pinf2", "obj_ninf4", "obj_huge1", "con_nan3", "con_pinf0", "con_ninf5"]),
+    ("ftol", [None, 0.0, 0.25]),
     ("scribble", [False, True]),
 ]
 
@@ -121,11 +123,13 @@ def case_of(row):
     elif box == "wide":
         pats = ("wide",) * n
     elif box == "odd":
-        pats = ("oddw", "oddn")[:n]
+        pats = ("oddw", "oddn", "oddw")[:n]
     elif box == "lo":
         pats = ("lo",) + ("wide",) * (n - 1)
     elif box == "narrow":
         pats = ("narrow",) + ("up",) * (n - 1)
+    elif box == "big":
+        pats = ("big",) * n
     elif box == "fixwide":
         pats = ("fixed",) + ("wide",) * (n - 1)
     else:
@@ -146,6 +150,8 @@ def case_of(row):
     nan = None
     if obj == "quad_nan":
         obj, nan = "quad", "half"
+    elif obj == "quad_nan_out":
+        obj, nan = "quad", "outball"
     opts = {"scale": f["scale"], "maxfev": f["maxfev"], "disp": f["disp"], "debug": f["debug"]}
     if nfree > 0:
         opts["nb_points"] = {"min": nfree + 1, "default": 2 * nfree + 1, "max": (nfree + 1) * (nfree + 2) // 2}[f["npt"]]
@@ -164,10 +170,18 @@ def case_of(row):
         opts.update(radius_init=0.5, radius_final=0.25)
     elif rad == "tiny0":
         opts.update(radius_init=2.0 ** -10, radius_final=0.0)
+    elif rad == "huge":
+        opts.update(radius_init=2.0 ** 20, radius_final=2.0 ** 10)
     elif rad == "big":
         opts.update(radius_init=2.0, radius_final=2.0 ** -7)
+    if f["ftol"] is not None:
+        opts["feasibility_tol"] = f["ftol"]
     consts = {"default": {}, "slowshrink": {"decrease_radius_factor": 0.875},
-              "ratios": {"low_ratio": 0.25, "high_ratio": 0.5}, "notcg": {"improve_tcg": False}}[f["constant"]]
+              "ratios": {"low_ratio": 0.25, "high_ratio": 0.5}, "notcg": {"improve_tcg": False},
+              "shiftalways": {"large_shift_factor": 0.0},
+              "penalty": {"penalty_increase_threshold": 1.0, "penalty_increase_factor": 1.5},
+              "shortstep": {"short_step_threshold": 0.875, "resolution_factor": 1.25},
+              "bo": {"byrd_omojokun_factor": 0.25, "low_radius_factor": 0.875}}[f["constant"]]
     cb = {"none": None, "xk": {"sig": "xk", "behav": "passive"}, "ir": {"sig": "ir", "behav": "passive"},
           "stop3": {"sig": "xk", "behav": "stop", "k": 3}, "stop9": {"sig": "ir", "behav": "stop", "k": 9},
           "nanwrite": {"sig": "xk", "behav": "nanwrite"}}[f["callback"]]
@@ -175,6 +189,18 @@ def case_of(row):
                            callback=cb, constants=consts)
     if f["scribble"]:
         case["scribble"] = True
+    fault = f["fault"]
+    if fault != "none":
+        who, what = fault.split("_")
+        alt, k = what[:-1], int(what[-1])
+        if who == "obj":
+            case["dev"] = [["obj", k, alt]]
+        else:
+            nl = [j for j, c in enumerate(case["cons"]) if c["kind"] == "nl"]
+            if nl:
+                j = nl[-1]
+                comp = (k % len(case["cons"][j]["funs"]))
+                case["dev"] = [[f"con{j}", k, [alt, comp]]]
     case["tag"]["cover"] = {k: (v if not isinstance(v, float) else float(v)) for k, v in f.items()}
     case["explore"] = 0
     return case
@@ -185,14 +211,21 @@ def cases(t=3):
 
 
 def roots_for(tier, monitors=(), linear_ok=True, explore_thorough=0):
-    """The cross-feature cases as roots of a property check (3-way covering array)."""
+    """The cross-feature cases as roots of a property check: the 3-way and the 4-way covering arrays
+    (both tiers; the 3-way cases with deviations in thorough)."""
     out = []
-    for c in cases(3):
-        if not linear_ok and any(k["kind"] == "lin" for k in c["cons"]):
-            continue
-        c = dict(c)
-        c["monitors"] = list(monitors)
-        c["explore"] = explore_thorough if tier == "thorough" and c["options"]["maxfev"] <= 25 else 0
-        c["tag"] = dict(c["tag"], part="cross-feature")
-        out.append(c)
+    seen = set()
+    strengths = (3, 4)
+    for t in strengths:
+        for r in rows(t):
+            if r in seen:
+                continue
+            seen.add(r)
+            c = case_of(r)
+            if not linear_ok and any(k["kind"] == "lin" for k in c["cons"]):
+                continue
+            c["monitors"] = list(monitors)
+            c["explore"] = explore_thorough if (tier == "thorough" and t == 3 and c["options"]["maxfev"] <= 25) else 0
+            c["tag"] = dict(c["tag"], part="cross-feature" if t == 3 else "cross-feature-4way")
+            out.append(c)
     return out
